@@ -804,7 +804,7 @@ func doCheck(prop, tier string) int {
 				continue
 			}
 			violations++
-			if seenOracle[f.Oracle] {
+			if seenOracle[f.Oracle] || len(reported) >= envInt("VERIF_MAX_REPORT", 3) {
 				continue
 			}
 			seenOracle[f.Oracle] = true
@@ -873,7 +873,7 @@ func reportViolation(bi *buildInfo, prop, tier string, o runOut, f failure) stri
 		if err != nil || !hasOracle(first, f.Oracle) {
 			fmt.Printf("INFRA-ERROR property=%s seed=%d: the recorded choices do not reproduce oracle %q in a fresh process (%v) — engine nondeterminism\n", prop, o.Seed, f.Oracle, err)
 		} else {
-			best, bo, tried := shrink(bi, prop, o.Seed, f.Oracle, choices, 90*time.Second, 600)
+			best, bo, tried := shrink(bi, prop, o.Seed, f.Oracle, choices, time.Duration(envInt("VERIF_SHRINK_SEC", 90))*time.Second, 600)
 			rf.Shrunk = tried
 			if bo != nil {
 				rf.Choices, rf.Kinds, rf.Digest, rf.Steps = best, bo.Kinds, bo.Digest, bo.Steps
